@@ -55,12 +55,7 @@ static bool start_new_run(carquet_rle_decoder_t* dec) {
         dec->in_rle_run = true;
         dec->run_remaining = (int64_t)(header >> 1);
 
-        if (dec->run_remaining == 0) {
-            /* Empty run, try next */
-            return start_new_run(dec);
-        }
-
-        /* Read the repeated value (ceil(bit_width/8) bytes) */
+        /* Read the repeated value (ceil(bit_width/8) bytes); an empty run carries it too */
         int value_bytes = (dec->bit_width + 7) / 8;
         if (dec->pos + (size_t)value_bytes > dec->size) {
             dec->status = CARQUET_ERROR_INVALID_RLE;
@@ -72,6 +67,11 @@ static bool start_new_run(carquet_rle_decoder_t* dec) {
             dec->rle_value |= (uint32_t)dec->data[dec->pos++] << (i * 8);
         }
         dec->rle_value &= dec->value_mask;
+
+        if (dec->run_remaining == 0) {
+            /* Empty run, try next */
+            return start_new_run(dec);
+        }
 
     } else {
         /* Bit-packed run */
@@ -481,16 +481,16 @@ int64_t carquet_rle_decode_levels(
         if ((header & 1) == 0) {
             /* RLE run: fill output with repeated value */
             int64_t run_length = (int64_t)(header >> 1);
-            if (run_length == 0) continue;
 
             if (pos + (size_t)value_bytes > input_size) break;
 
-            /* Read the repeated value */
+            /* Read the repeated value (present even in an empty run) */
             uint32_t rle_value = 0;
             for (int i = 0; i < value_bytes; i++) {
                 rle_value |= (uint32_t)input[pos++] << (i * 8);
             }
             rle_value &= value_mask;
+            if (run_length == 0) continue;
             int16_t val16 = (int16_t)rle_value;
 
             /* Fill output in bulk */
